@@ -94,6 +94,18 @@ def handleSucc (args : List String) : String :=
   | [f] => withBoard f fun b => sortedJoin ((genLegal b).map fun m => s!"{m.uci}>{fenOut (make b m)}")
   | _ => "bad-request"
 
+def handleLegalAfter (args : List String) : String :=
+  match args with
+  | f :: ucis => withBoard f fun b =>
+      let rec go (cur : Board) : List String → String
+        | [] => s!"{fenOut cur} {sortedJoin ((genLegal cur).map Move.uci)}"
+        | u :: rest =>
+          match (genLegal cur).find? (fun m => m.uci == u) with
+          | some m => go (make cur m) rest
+          | none => s!"ERR {u}"
+      go b ucis
+  | _ => "bad-request"
+
 def handleMkUnmk (args : List String) : String :=
   match args with
   | [f] => withBoard f fun b =>
@@ -285,6 +297,21 @@ def handleScoreFromValue (args : List String) : String :=
         | .cp x => s!"cp {x}"
         | .mate n => s!"mate {n}"
       | none => "bad-request"
+  | _ => "bad-request"
+
+/-- generator-quality report: features of a position that the properties care about -/
+def handleFeatures (args : List String) : String :=
+  match args with
+  | [f] => withBoard f fun b =>
+      let legal := genLegal b
+      let pieces := (bitsAsc (b.white.full ||| b.black.full)).length
+      let checkers := if isCurrentInCheck b then 1 else 0
+      let promo := legal.any Move.isPromotion
+      let castle := legal.any fun m => m.f.castle
+      let epCap := legal.any fun m => m.f.enPassant
+      let rights := (if b.white.ks then 1 else 0) + (if b.white.qs then 1 else 0) + (if b.black.ks then 1 else 0) + (if b.black.qs then 1 else 0)
+      let illegalPseudo := (genPseudo b).length - legal.length
+      s!"pieces={pieces} turn={b.turn} incheck={checkers} legal={legal.length} pinned_or_illegal={illegalPseudo} promo={b01 promo} castle={b01 castle} epcap={b01 epCap} epset={b01 (b.ep != 0)} rights={rights} hm={b.halfmove}"
   | _ => "bad-request"
 
 def handleMagic (args : List String) : String :=
